@@ -434,7 +434,7 @@ func (g *gen) rerunCases() {
 			}
 			nf := rng.Range(0, 3)
 			for j := 0; j < nf; j++ {
-				f := g.file(hk.Pick(rng, []int{0, 5, 511, 512, 513, 1500}), hk.Pick(rng, []string{"path", "bytes", "upload", "path", "bytes", "upload", "reader"}), rng.Intn(2))
+				f := g.file(hk.Pick(rng, []int{0, 5, 511, 512, 513, 1500}), hk.Pick(rng, []string{"path", "bytes", "upload", "path", "bytes", "upload", "reader", "seek", "seek"}), rng.Intn(2))
 				in.Files = append(in.Files, f)
 			}
 			if nf == 0 {
